@@ -25,7 +25,10 @@ from typing import Dict, List, Optional, Set
 from .renameback import _own, _params, bindings, FuncDef
 
 MUTATORS = {"append", "extend", "pop", "remove", "sort", "add", "update", "clear", "insert", "reverse", "discard", "popitem", "setdefault", "shuffle", "appendleft", "popleft"}
-RANDOM_HINTS = ("random", "choice", "choices", "sample", "shuffle", "permutation", "dirichlet", "uniform", "randint", "rand")
+RANDOM_HINTS = ("random", "choice", "choices", "sample", "shuffle", "permutation", "dirichlet", "uniform", "randint", "rand",
+                # package functions that may draw (directly or through a random tiebreak): never evaluated twice by a substitution
+                "tiebreak_set", "tiebroken_ranking", "elect_cands_from_set_ranking", "transfer", "random_transfer", "generate_profile",
+                "sample_cohesion_ballot_types", "_run_step", "get_profile", "get_step")
 BLOCKS = ("body", "orelse", "finalbody", "handlers")
 
 
